@@ -242,7 +242,9 @@ def get_response_type(request: Request) -> Type[APIResponse]:
 def http_exception_to_response(exception: werkzeug.exceptions.HTTPException, response_type: Type[APIResponse]) \
         -> APIResponse:
     headers = exception.get_headers()
-    location = exception.get_response().location
+    # only redirects carry a location; don't render werkzeug's own (HTML) response for the others: its encoding
+    # fails for a description that echoes a lone surrogate from the request
+    location = exception.new_url if isinstance(exception, werkzeug.routing.RequestRedirect) else None
     if location is not None:
         headers.append(("Location", location))
     if exception.code and exception.code >= 400:
